@@ -76,7 +76,10 @@ impl Txtpp {
 
         let progress = Progress::new(config.verbosity.clone());
 
-        let threadpool = Builder::new().num_threads(config.num_threads).build();
+        // the thread pool asserts that it has at least one thread
+        let threadpool = Builder::new()
+            .num_threads(config.num_threads.max(1))
+            .build();
         let (send, recv) = mpsc::channel();
 
         let mut runtime = Self {
